@@ -34,7 +34,7 @@ PROFILES = {
             "selftest_quick": 48, "selftest_thorough": 256, "timeout": 120},
     "C13": {"level": "exploration", "quick_runs": 1500, "quick_budget": 420, "thorough_budget": 900,
             "selftest_quick": 48, "selftest_thorough": 256, "timeout": 120},
-    "C18": {"level": "fault_enumeration", "quick_runs": 12000, "quick_budget": 420, "thorough_budget": 900,
+    "C18": {"level": "fault_enumeration", "quick_runs": 17800, "quick_budget": 420, "thorough_budget": 900,
             "selftest_quick": 48, "selftest_thorough": 256, "timeout": 120},
     "C11": {"level": "exploration", "quick_runs": 7000, "quick_budget": 420, "thorough_budget": 900,
             "selftest_quick": 48, "selftest_thorough": 256, "timeout": 120},
@@ -247,7 +247,7 @@ def cmd_check(tier, prop):
         else:
             from unytsim import c18sim
 
-            total, nquick = c18sim.sweep_total(), 6000
+            total, nquick = c18sim.sweep_total(), 5000
         if tier == "quick":
             idxs = sorted(random.Random(f"{seed}:{prop}:sweep").sample(range(total), nquick))
         else:
